@@ -998,7 +998,15 @@ class Wtp:
         assert isinstance(text, str), (
             f"{text=!r} was passed into _template_to_body"
         )
-        # Remove all comments
+        # Remove all comments.  A comment alone on its line takes the line
+        # with it (as in MediaWiki), so that the usual layout
+        #   text
+        #   <!-- remark -->
+        #   more text
+        # does not leave an empty line (a paragraph break) behind.
+        text = re.sub(
+            r"(?s)(?:\A|(?<=\n))[ \t]*<!--(?:(?!-->).)*-->[ \t]*\n", "", text
+        )
         text = re.sub(r"(?s)<!--.*?-->", "", text)
         # Remove all text inside <noinclude> ... </noinclude>
         text = re.sub(r"(?is)<noinclude\s*>.*?</noinclude\s*>", "", text)
